@@ -253,9 +253,16 @@ func (k *ASRep) Verify(cfg *config.Config, creds *credentials.Credentials, asReq
 	if k.CRealm != asReq.ReqBody.Realm {
 		return false, krberror.NewErrorf(krberror.KRBMsgError, "CRealm in response does not match what was requested. Requested: %s; Reply: %s", asReq.ReqBody.Realm, k.CRealm)
 	}
+	if k.Ticket.Realm != asReq.ReqBody.Realm {
+		return false, krberror.NewErrorf(krberror.KRBMsgError, "realm in response ticket does not match what was requested. Requested: %s; Reply: %s", asReq.ReqBody.Realm, k.Ticket.Realm)
+	}
 	key, err := k.DecryptEncPart(creds)
 	if err != nil {
 		return false, krberror.Errorf(err, krberror.DecryptingError, "error decrypting EncPart of AS_REP")
+	}
+	if !k.Ticket.SName.Equal(k.DecryptedEncPart.SName) {
+		// the ticket's own name field is not protected: it has to agree with the one sealed in the reply
+		return false, krberror.NewErrorf(krberror.KRBMsgError, "SName in response ticket does not match the SName in the encrypted part. Ticket: %v; Reply: %v", k.Ticket.SName, k.DecryptedEncPart.SName)
 	}
 	if k.DecryptedEncPart.Nonce != asReq.ReqBody.Nonce {
 		return false, krberror.NewErrorf(krberror.KRBMsgError, "possible replay attack, nonce in response does not match that in request")
